@@ -33,7 +33,7 @@ RULE = (
 )
 ASSUMPTIONS = [
     "2-d fractures are compared as a multiset of unordered segments with exact end point coordinates "
-    "(the reader documents a renumbering of points); 3-d fractures as a multiset of vertex cycles up to "
+    "(the reader documents a renumbering of points; fracture tags are not part of the csv format and not compared); 3-d fractures as a multiset of vertex cycles up to "
     "rotation and reversal of the cycle",
     "txt names contain no white space and do not start with '#'; arrays are 1-d; with the default format "
     "'%2.2e' only values with <= 3 significant digits are letters (documented lossy choice of the caller)",
@@ -42,10 +42,11 @@ ASSUMPTIONS = [
     "every file is written twice (txt: first a longer table with other names) and the written objects must be unchanged",
 ]
 BOUNDS = {
-    "quick": "2-d: all sets of <= 2 of the 36 lattice segments x 3 scales x {header, no header}; 3-d: all sets "
+    "quick": "2-d: all sets of <= 2 of the 36 lattice segments x 3 scales x {header, no header}, plus all sets of <= 2 with "
+             "tagged fractures (2 tag assignments); 3-d: all sets "
              "of <= 2 of 9 polygons x 3 scales x {domain, none}; txt: 1-3 columns x 1-4 rows x 4 format "
              "assignments x 2 value sets x 2 name sets",
-    "thorough": "2-d: all sets of <= 3 segments x 3 scales x {header, no header}; 3-d: all sets of <= 3 of 9 "
+    "thorough": "2-d: all sets of <= 3 segments x 3 scales x {header, no header}, plus all sets of <= 2 with tagged fractures; 3-d: all sets of <= 3 of 9 "
                 "polygons x 3 scales x {domain, none}; txt as quick plus 5 and 7 rows",
 }
 MIN_CLASSES = 8
@@ -83,6 +84,10 @@ def cases(tier):
             out.append({"kind": "2d", "scale": s, "header": hdr, "first": None, "maxn": 0})
             for i in range(len(SEGS2)):
                 out.append({"kind": "2d", "scale": s, "header": hdr, "first": i, "maxn": n2})
+                # the same networks with tagged fractures (two different tag assignments); scale 1 only
+                if s == 0 and hdr:
+                    for tagmode in (1, 2):
+                        out.append({"kind": "2d", "scale": s, "header": hdr, "first": i, "maxn": 2, "tagmode": tagmode})
         for dom in (True, False):
             out.append({"kind": "3d", "scale": s, "domain": dom, "first": None, "maxn": 0})
             for i in range(len(POLYS)):
@@ -123,7 +128,8 @@ def _run_2d(case, out):
 
     sc = SCALES[case["scale"]]
     hdr = case["header"]
-    fname = Path(f"net2d_{case['scale']}_{int(hdr)}_{case['first']}.csv")
+    fname = Path(f"net2d_{case['scale']}_{int(hdr)}_{case['first']}_{case.get('tagmode', 0)}.csv")
+    tagmode = case.get("tagmode", 0)
     for sub in _subsets_with_first(len(SEGS2), case["first"], case["maxn"]):
         segs = []
         for k, si in enumerate(sub):
@@ -131,8 +137,15 @@ def _run_2d(case, out):
             if (k + si) % 2:  # alternate the orientation
                 a, b = b, a
             segs.append((tuple(sc * c for c in PTS2[a]), tuple(sc * c for c in PTS2[b])))
-        fracs = [pp.LineFracture(np.array([[a[0], b[0]], [a[1], b[1]]], dtype=float)) for a, b in segs]
-        desc = {"segments": segs, "with_header": hdr}
+        # tags per fracture (they become extra rows of the network's edge array; the csv format has no tag
+        # columns, so only the segments are compared): none / one tag / two tags, values that are also valid,
+        # too large and negative as point indices
+        tagsets = [None, [1], [0, 7], [-1], [3, 0, 2]]
+        tags = [tagsets[(tagmode * (k + 1) + si) % len(tagsets)] if tagmode else None for k, si in enumerate(sub)]
+        fracs = [pp.LineFracture(np.array([[a[0], b[0]], [a[1], b[1]]], dtype=float), tags=t)
+                 if t is not None else pp.LineFracture(np.array([[a[0], b[0]], [a[1], b[1]]], dtype=float))
+                 for (a, b), t in zip(segs, tags)]
+        desc = {"segments": segs, "with_header": hdr, "tags": tags}
         try:
             if fracs:
                 net = pp.create_fracture_network(fracs)
@@ -163,7 +176,9 @@ def _run_2d(case, out):
             out.violate("2-d network read back differs from the one written", written=written, read=got, **desc)
             out.ev("VIOLATION")
             continue
-        out.ev(f"2d/n{len(segs)}/{'shared' if shared else 'disjoint'}/scale{case['scale']}/{'hdr' if hdr else 'nohdr'}", key)
+        ntag = max([len(t) for t in tags if t is not None], default=0)
+        out.ev(f"2d/n{len(segs)}/{'shared' if shared else 'disjoint'}/scale{case['scale']}/{'hdr' if hdr else 'nohdr'}"
+               f"/tags{ntag}", key + (tagmode,) if key is not None else (("2d-tag", case["scale"], hdr, sub, tagmode) if ntag else None))
         if len(segs) >= 2 and shared and not out.samples:
             out.samples.append({"kind": "2d", **desc, "file": fname.read_text()})
     if fname.exists():
